@@ -1,6 +1,6 @@
 (** C13 — A dry run has no effects and predicts the real build.  Statements only; proofs in Build/Proofs.v.
     Model: Build/Model.v ([build] = a fresh process: load, then run; [c_dry] = RunOptions.DryRun). *)
-From Dawn Require Import Build.Model Build.Proofs.
+From Dawn Require Import Build.Model Build.Proofs Build.Proofs_Fresh Build.Proofs_Dry.
 
 (** A dry Run executes no body and leaves the whole world (project files and persisted records) exactly as the
     load that precedes it left it. *)
@@ -31,11 +31,21 @@ Theorem dry_run_transparent :
 Proof. exact Proofs.dry_run_transparent. Qed.
 Print Assumptions dry_run_transparent.
 
-(** NOT YET PROVED (stated for the record; decided on the implementation by the harness oracle "C13 dry run predicted ..."
-    and by the model/implementation correspondence on every dry run):
-      dry_run_predicts : the labels with an evaluating event in [build dry w l] are exactly those in [build real w l]
-      when the real build succeeds.  Missing lemma: a simulation between the dry and the real fold that relates visits by
-      their [v_changed] flags and result, under the hypothesis that distinct targets generate distinct files. *)
+(** The dry run reports exactly the targets a real build of the same tree attempts: when the real build (same
+    always-option, same tree) visits every target successfully, a label has an evaluating event in the dry run iff it has
+    one in the real build.  Hypotheses: no two targets generate the same path ([gens_unique]); at most one generator per
+    registered source ([link_ok], otherwise the load fails).  (When a body fails the real build stops below the failure;
+    that half of the statement -- equality apart from targets downstream of the failure -- is decided by the harness
+    oracle only.) *)
+Theorem dry_run_predicts :
+  forall c w l,
+    c_dry c = false -> c_crashed c = false -> link_ok (w_proj w) = true -> gens_unique (w_proj w) ->
+    let real := build c w l in
+    let dry := build (dry_of c) w l in
+    (forall x v, lookup x (o_vis real) = Some v -> v_res v = ROk) ->
+    forall x, In (EEvaluating x) (o_events dry) <-> In (EEvaluating x) (o_events real).
+Proof. exact Proofs_Dry.dry_run_predicts. Qed.
+Print Assumptions dry_run_predicts.
 
 (** non-vacuity: a two-target world in which the dry run reports work and changes nothing *)
 Example dry_run_example :
